@@ -52,6 +52,25 @@ def requests(s):
     return out
 
 
+RULE_NAMES = ["escape_next", "capturing_regex", "backslash", "space", "regex_delim", "anchor_mark",
+              "collector_operator", "must_be", "quote", "open_paren", "close_keyword", "close_collector",
+              "open_bracket", "search_operator", "nested_bracket", "close_bracket", "stray_close_bracket",
+              "separator", "append(default)"]
+
+
+def extra_requests(s):
+    # which rule of the model's chain fires at every character (coverage of the model's case structure)
+    return ["(rules auto true %s)" % hexs(s)]
+
+
+def model_stats(s, outs):
+    h = {}
+    for tok in outs[0].strip("()").split():
+        name = "rule%02d_%s" % (int(tok) + 1, RULE_NAMES[int(tok)]) if tok.isdigit() and int(tok) < len(RULE_NAMES) else "rule?" + tok
+        h[name] = h.get(name, 0) + 1
+    return h
+
+
 _ENV = {}
 
 
